@@ -1,5 +1,7 @@
 """C06: filters (E2 class level)"""
-from vlib import common as C, e2prop
+import os
+from vlib import common as C, e2prop, e3, e3run
+from checks import c06s
 
 
 def main():
@@ -12,6 +14,23 @@ def main():
     chk.assume(*e2prop.E2_ASSUME)
     chk.assume('slip normals have non-zero length; mean filter weights and primal vector positive (constructor precondition volume > 0)', 'ignore_nans mode: NaN is a reserved marker value recognised by Math::isnan<SymReal> (all NaN masks of one prescribed block are swept)')
     e2prop.run_e2(chk, e2prop.e2_harness_path('c06_e2.cpp'), 'c06_e2', timeout=60, harness_args=['--bounds', n])
-    return chk.finish(
-        explanation='Bounded symbolic check: the real filter classes run on a symbolic real scalar for every index-set configuration in the bound; z3 decides for ALL real vector contents / prescribed values / normals / weights that constrained entries take the prescribed value (resp. 0), the normal component / weighted mean vanishes exactly, unconstrained entries are unchanged, a second application changes nothing, and filtered matrix rows are unit rows.',
-        rule=e2prop.E2_RULE, trusted=e2prop.E2_TRUSTED)
+    # structural slice (E3): the constrained index set (and the matrix column indices) symbolic
+    bdir = C.mkdir(os.path.join(C.BUILD, 'C06', 'e3'))
+    mod, native, info = c06s.build(bdir)
+    chk.extra['ir'] = info
+    jobs = c06s.jobs(quick)
+    only = os.environ.get('C06_ONLY')
+    if only:
+        jobs = [j for j in jobs if only in j[0]]
+    chk.bounds.append('E3 structural slice: UnitFilter<double,u64> on vectors of length 1..%d with 0..n constrained entries whose indices are SYMBOLIC (any strictly sorted in-range set), prescribed and vector values raw symbolic 64-bit patterns: filter_rhs/sol/def/cor, filter_rhs twice, filter_def after filter_rhs; filter_mat / filter_offdiag_row_mat / filter_mat twice on square CSR matrices n <= 3 with <= %d entries, every row-length profile, SYMBOLIC column indices (rows may lack a stored diagonal) and symbolic constrained rows' % ((4, 4) if quick else (6, 6)))
+    chk.assume('E3 structural slice: values are 64-bit patterns that the filter only overwrites (prescribed value, +0.0, 1.0); the index set of the filter is sorted and duplicate-free (as produced by SparseVector)')
+    # vacuity guard: a deliberately wrong oracle (filter_def claimed to write the prescribed values) must be refuted
+    wj = [j for j in c06s.jobs(True) if j[1] == 'w_unit_vec' and j[2]['op'] == 2 and j[2]['n'] == 2 and j[2]['used'] == 1]
+    if wj:
+        w = wj[0]
+        Rw, _ = e3.run_case(mod, c06s.SIGS[w[1]], w[0], w[2], w[3], c06s.vec_oracle(0, 2, w[2]['fidx'], w[2]['fvals'], w[2]['vec']), budget=60)
+        if not any(v['kind'] == 'property' for v in Rw.viol):
+            chk.error('E3 structural slice: deliberately wrong oracle (filter_def writes the prescribed value) was not refuted (vacuity guard)')
+    return e3run.run_jobs(chk, mod, native, jobs, info, quick, c06s.SIGS, 'c06s',
+        explanation='Bounded symbolic check: the real filter classes run on a symbolic real scalar for every index-set configuration in the bound; z3 decides for ALL real vector contents / prescribed values / normals / weights that constrained entries take the prescribed value (resp. 0), the normal component / weighted mean vanishes exactly, unconstrained entries are unchanged, a second application changes nothing, and filtered matrix rows are unit rows. E3 structural slice: the real UnitFilter runs in my IR symbolic executor with a SYMBOLIC constrained index set (and symbolic matrix column indices); on every path z3 decides over all index sets that constrained entries / rows hold the prescribed value, +0.0 or the unit row, everything else keeps its bit pattern, and a second application changes nothing; every access is bounds-checked.',
+        rule=e2prop.E2_RULE + '; E3 part: one obligation = one property of one path of one size profile (solver query pc && !property must be unsat)', trusted_extra=e2prop.E2_TRUSTED)
